@@ -89,7 +89,7 @@ Definition class_initialize (junk : nat -> option fid) (k : cls) : icls :=
   let arr3 := upd arr2 dp None in                         (* *cls_destruct_array = NULL *)
   {| i_depth := depth; i_arr := arr3; i_coff := 0; i_doff := nc + 1 |}.
 
-(* while (NULL != *p) { (*p)(object); p++; } : the list of functions invoked, in order *)
+(* while (NULL != p[0]) { p[0](object); p++; } : the list of functions invoked, in order *)
 Fixpoint scan (l : list (option fid)) : list fid :=
   match l with
   | Some f :: r => f :: scan r
@@ -154,6 +154,7 @@ Definition step (dt : list fid) (c : ocfg) (t : nat) : ocfg :=
 Definition run (dt : list fid) (c : ocfg) (sched : list nat) : ocfg := fold_left (step dt) sched c.
 
 Definition sumf (f : thr -> Z) (l : list thr) : Z := fold_right (fun th a => f th + a) 0 l.
+Definition sumz (l : list Z) : Z := fold_right Z.add 0 l.
 
 (* PARSEC_OBJ_NEW gives the creator one reference; it retains once per further
    reference it hands out before the threads start: the count starts at the
